@@ -11,6 +11,31 @@ verdict = [l for l in log.splitlines() if l.startswith(sid + ":")][-1]
 sums = re.findall(r"=== (\w): .*?\n((?:.*\n)*?)rc=(\d+)", log)
 ok = len(sums) == 3 and sums[0][2] == "0" and sums[2][2] == "0" and sums[1][2] != "0" \
     and "failed" in sums[1][1] and "failed" not in sums[0][1] and "failed" not in sums[2][1]
+nonstable_note = ""
+if not ok and len(sums) == 3:
+    # tests that the pinned baseline itself lists as flaky / always failing (they are not among
+    # the 795 stable tests) do not count: a and c must be green on everything else, b must fail
+    # on something else (the demonstration)
+    base = json.load(open("/root/.vp/BASELINE.json"))
+    nonstable = {t.replace("::blackbox::", "::blackbox ").split(" ", 1)[-1] if False else t
+                 for t in base.get("flaky", []) + base.get("always_fail", [])}
+
+    def final_failures(text):
+        out = set()
+        for l in text.splitlines():
+            m = re.search(r"FAIL \[.*?\] \(\s*\d+/\d+\) (\S+) (\S+)", l)
+            if m:
+                out.add(f"{m.group(1)}::{m.group(2)}".replace("::blackbox::", "::blackbox::"))
+        return out
+    fa, fb, fc = (final_failures(x[1]) for x in sums)
+    norm = lambda t: t.replace("astria-composer::blackbox::", "astria-composer::blackbox::")
+    ns = {norm(t) for t in nonstable}
+    fa, fb, fc = ({norm(t) for t in f} for f in (fa, fb, fc))
+    if not (fa - ns) and not (fc - ns) and (fb - ns):
+        ok = True
+        nonstable_note = ("a/c phases: the only failing tests are ones the pinned baseline lists as "
+                          f"flaky/always failing ({sorted(fa | fc)}); b phase additionally fails "
+                          f"{sorted(fb - ns)}")
 if not ok:
     sys.exit(f"{sid}: verify.log does not show a/b/c = pass/fail/pass: {verdict}")
 m = json.load(open(os.path.join(src, "meta.json")))
@@ -23,6 +48,8 @@ m["confirmed_here"] = {
     "b_change_plus_demo": next(l.strip() for l in sums[1][1].splitlines() if "Summary" in l),
     "c_demo_only": next(l.strip() for l in sums[2][1].splitlines() if "Summary" in l),
 }
+if nonstable_note:
+    m["confirmed_here"]["non_stable_tests"] = nonstable_note
 m["caught_by"] = caught
 m["first_run"] = (first == "yes")
 if note:
